@@ -379,7 +379,9 @@ def synthesize_surface_from_psd(psd, nu_x, nu_y):
     signal = np.exp(1j * phase) * np.sqrt(A * psd)
 
     coef = 1 / dx / dy
-    out = fft.ifftshift(fft.ifft2(fft.fftshift(signal))) * coef
+    # psd / nu_x / nu_y are centered (zero frequency on sample n//2): ifftshift moves
+    # that sample to index 0 for every n; fftshift only does so for even n
+    out = fft.ifftshift(fft.ifft2(fft.ifftshift(signal))) * coef
     out = out.real
     return x, y, out
 
